@@ -82,11 +82,7 @@ theorem grun_append (s : State) (g : Ghost) (a b : List EnvIn) :
   | nil => rfl
   | cons i is ih => simp [grun, ih]
 
-/-- dropped responses -/
-def dropped (l : List (Nat × Bool)) : List Nat := (l.filter (·.2)).map (·.1)
-/-- responses handed to D -/
-def kept (l : List (Nat × Bool)) : List Nat := (l.filter (fun e => !e.2)).map (·.1)
-
+/-- the inductive invariant: every log is the next stage's log plus what that stage currently holds -/
 structure J (s : State) (g : Ghost) : Prop where
   base : g.base ≤ g.nxt
   F : List.range' g.base (g.nxt - g.base) =
